@@ -375,6 +375,9 @@ def check_c13(exe, tier, seed, verdict):
     from . import p_layers
     extra = p_layers.c13_tree_cases(exe, tier, seed, verdict)
     es = check_errstrings(exe, verdict)
+    from . import p_econf
+    nmix = 150 if tier == "quick" else 3000
+    extra["n"] += p_econf.run_mixed(exe, random.Random(seed + 13), nmix, verdict, "C13")      # error location after failed single / layered reads of random files
     files = gen_random_files(seed + 7, 200 if tier == "quick" else 3000, 12 if tier == "quick" else 30, bad_rate=1.0)
     acc = validate_prefix_traces(exe, files, verdict, "C13")
     cov = {"states": r.distinct, "transitions": r.generated, "traces_validated_against_impl": n + acc + extra["n"],
